@@ -654,6 +654,28 @@ impl RegexInternPool {
     }
 }
 
+// Read-only accessors for the external verification harness (cargo feature `verif`).
+#[cfg(feature = "verif")]
+impl RegexInternPool {
+    pub fn verif_regexes(&self) -> impl Iterator<Item = &Regex> {
+        self.store.iter()
+    }
+}
+
+#[cfg(feature = "verif")]
+impl RegexId {
+    pub fn verif_index(&self) -> usize {
+        self.0
+    }
+}
+
+#[cfg(feature = "verif")]
+impl RegexNodeId {
+    pub fn verif_index(&self) -> usize {
+        self.0
+    }
+}
+
 #[derive(Debug, Clone)]
 pub struct Regex {
     pub root_id: RegexNodeId,
